@@ -169,6 +169,13 @@ theorem allPermitted_get (ps : List (Option Policy)) (first : Hop) (before later
       have := ih (before ++ [x]) h.2 k (by simpa using hk)
       simpa using this
 
+theorem max_check_iff (n : Int) (req : Bytes) (via : Via) :
+    (maxRedirectPolicy n).check req via = .allow ↔ (via.length : Int) < n := by
+  simp only [maxRedirectPolicy]
+  by_cases h : (via.length : Int) ≥ n
+  · simp [h]
+  · simp [h]; omega
+
 /-- With `MaxRedirectPolicy n` among the policies, at most `max 1 n` requests are ever sent. -/
 theorem allPermitted_bound (ps : List (Option Policy)) (n : Int) (hn : some (maxRedirectPolicy n) ∈ ps)
     (first : Hop) (before later : List Hop) (h : AllPermitted ps first before later) :
@@ -176,14 +183,11 @@ theorem allPermitted_bound (ps : List (Option Policy)) (n : Int) (hn : some (max
   induction later generalizing before with
   | nil => simp; omega
   | cons x xs ih =>
-    have hx := h.1 _ hn
-    simp only [maxRedirectPolicy, Via.length] at hx
-    split at hx
-    · exact absurd hx (by simp)
-    · rename_i hlt
-      have := ih (before ++ [x]) h.2
-      simp only [List.length_append, List.length_cons, List.length_nil] at this ⊢
-      omega
+    have hx := (max_check_iff n _ _).mp (h.1 _ hn)
+    simp only [Via.length] at hx
+    have := ih (before ++ [x]) h.2
+    simp only [List.length_append, List.length_cons, List.length_nil] at this ⊢
+    omega
 
 theorem allPermitted_no (ps : List (Option Policy)) (hn : some noRedirectPolicy ∈ ps)
     (first : Hop) (before later : List Hop) (h : AllPermitted ps first before later) : later = [] := by
